@@ -87,6 +87,41 @@ def gid_of(op):
     return odd_value(g['odd']) if isinstance(g, dict) else g
 
 
+_BLANK = itertools.count(1)
+EXT_OPS = ('remove_node', 'delete_node')
+
+
+class Removed(int):
+    """internal id removed by an external op (0 = the graph had no node)"""
+
+
+def ext_remove(store, op):
+    """a caller removes one node of graph g from the stored nx graph: directly (`remove_node`) or through
+    NetworkXPropertyGraph(.Disjoint).delete_node (`delete_node`).  op['idx'] selects among the current nodes."""
+    g = op['g']
+    shared = hasattr(store, 'start_id')
+    if shared:
+        G = store.graphs
+        ids = sorted(n for n, d in G.nodes(data=True) if d.get('GraphID') == g)
+    else:
+        G = dict(store.graphs).get(g)
+        ids = sorted(G.nodes) if G is not None else []
+    if not ids:
+        return Removed(0)
+    nid = ids[op.get('idx', 0) % len(ids)]
+    if op['m'] == 'remove_node':
+        G.remove_node(nid)
+    else:
+        if shared:
+            from fim.graph.networkx_property_graph import NetworkXPropertyGraph as PG
+        else:
+            from fim.graph.networkx_property_graph_disjoint import NetworkXPropertyGraphDisjoint as PG
+        pg = object.__new__(PG)
+        pg.storage, pg.graph_id, pg.log = store, g, None
+        pg.delete_node(node_id=G.nodes[nid]['NodeID'])
+    return Removed(nid)
+
+
 def call_op(store, op):
     m, g = op['m'], gid_of(op)
     if m in ('add_graph', 'add_graph_direct'):
@@ -94,7 +129,9 @@ def call_op(store, op):
     if m == 'add_blank_node_to_graph':
         if op.get('dupkw'):
             return store.add_blank_node_to_graph(g, **{'GraphID': 'other', 'Class': 'x'})
-        return store.add_blank_node_to_graph(g, Class='NetworkNode', NodeID='%s-b' % g)
+        return store.add_blank_node_to_graph(g, Class='NetworkNode', NodeID='%s-b%d' % (g, next(_BLANK)))
+    if m in EXT_OPS:
+        return ext_remove(store, op)
     if m == 'del_all_graphs':
         return store.del_all_graphs()
     return getattr(store, m)(g)
@@ -141,13 +178,17 @@ class SLock:
         self.release()
         return False
 
-    def acquire(self, *a, **kw):
+    def acquire(self, blocking=True, timeout=-1):
         eng = self.eng
         w = eng.current()
         while True:
             if self.real.acquire(False):
                 eng.log.append((w.tid, 'A', None))
                 return True
+            if not blocking or (timeout is not None and timeout >= 0):
+                # a timed / non-blocking acquire of a held lock: what it returns once the timeout has elapsed
+                eng.log.append((w.tid, 'F', None))
+                return False
             w.blocked = True
             w.blocked_on = self
             eng.log.append((w.tid, 'B', None))
@@ -204,10 +245,14 @@ class Worker:
                 eng.log.append((self.tid, 'C', i))
                 before = snapshot(eng.flavour, eng.store) if eng.snap else None
                 res = {'out': 'ok', 'ret': None}
-                sys.settrace(self.tracer)
+                if op['m'] not in EXT_OPS:
+                    sys.settrace(self.tracer)
                 try:
                     r = call_op(eng.store, op)
-                    if isinstance(r, int) and not isinstance(r, bool):
+                    if isinstance(r, Removed):
+                        res['rm'] = int(r)
+                        eng.log.append((self.tid, 'E', None))
+                    elif isinstance(r, int) and not isinstance(r, bool):
                         res['ret'] = r
                 except Exception as e:
                     res['out'] = 'exc:' + type(e).__name__
@@ -356,7 +401,7 @@ def ir_lines(flavour):
         elif k == 'try':
             for x in s[2] + (s[3][1] if s[3] else []) + s[4]:
                 walk(x)
-        elif k == 'with':
+        elif k in ('with', 'acqt'):
             lock_lines.add(s[1])
             for x in s[2]:
                 walk(x)
@@ -391,7 +436,7 @@ def line_acts(flavour):
             [walk(x) for x in s[3]]
         elif k == 'try':
             [walk(x) for x in s[2] + (s[3][1] if s[3] else []) + s[4]]
-        elif k == 'with':
+        elif k in ('with', 'acqt'):
             [walk(x) for x in s[2]]
     if I:
         for m in I[flavour]['methods'].values():
@@ -434,6 +479,15 @@ def digest(flavour, raw):
             last[tid] = None
         elif kind == 'X':
             cur.append([0, 3])         # failed release
+        elif kind == 'F':              # timed acquire returned False: the line keeps code 0, it is one model step
+            if not (cur and cur[-1][1] == 0 and cur[-1][0] in lock_lines):
+                cur.append([0, 0])
+            sched.append(tid)
+            last[tid] = None
+        elif kind == 'E':              # external removal of a node (untraced)
+            cur.append([0, 0])
+            sched.append(tid)
+            last[tid] = None
     return calls, sched
 
 
@@ -514,6 +568,12 @@ def mirror(s_ir, path):
             o = block(s[2])
             evs.append((s[1], 2))
             return o
+        if k == 'acqt':
+            if pop():
+                evs.append((s[1], 0))
+                return block(s[2])
+            evs.append((s[1], 1))
+            return 'n'
         if k == 'ret':
             if fp(s[3]) and pop():
                 evs.append((s[1], 0))
@@ -582,9 +642,13 @@ def build_obs(flavour, thread_ops, raw):
             evs = calls[tid][i] if i < len(calls[tid]) else []
             raised = res['out'] != 'ok'
             p = None
-            if I and op['m'] in I[flavour]['methods']:
+            if op['m'] in EXT_OPS:
+                p = []
+            elif I and op['m'] in I[flavour]['methods']:
                 p = find_path(I[flavour]['methods'][op['m']], evs, raised)
             ent = {'op': op, 'events': evs, 'out': res['out'], 'ret': res['ret'], 'path': p}
+            if 'rm' in res:
+                ent['rm'] = res['rm']
             if 'before' in res:
                 ent['before'], ent['after'] = res['before'], res['after']
             if 'msg' in res:
@@ -684,7 +748,7 @@ def oracle_common(flavour, thread_ops, obs, check_serial):
                         return 'internal id %r handed out twice (%s)' % (c['ret'], 'graph ' + g if flavour == 'disjoint' else 'shared store')
                     seen[key] = True
         # (2) no insertion lost: without deleting / replacing calls the store holds every node that was added
-        deleting = any(o['m'] in ('del_graph', 'del_all_graphs', 'add_graph_direct') for o in all_ops)
+        deleting = any(o['m'] in ('del_graph', 'del_all_graphs', 'add_graph_direct') + EXT_OPS for o in all_ops)
         # an import replaces (shared) or is skipped on (disjoint) an existing graph: the count is only predictable
         # when an imported graph id is touched by nothing else (or, in the sequential setup thread, by nothing earlier)
         safe = True
@@ -707,7 +771,8 @@ def oracle_common(flavour, thread_ops, obs, check_serial):
             if len(obs['final']['nodes']) != exp:
                 return 'a node was lost: %d nodes added by successful calls, %d in the store' % (exp, len(obs['final']['nodes']))
         # (3) atomicity: when every call took the lock, the run must equal the serial run in lock order
-        took = all(any(cd == 1 for _, cd in c['events']) or c['op']['m'] == 'get_graph' for row in obs['calls'] for c in row)
+        took = all(any(cd == 1 for _, cd in c['events']) or c['op']['m'] == 'get_graph' for row in obs['calls'] for c in row) \
+            and not any(o['m'] in EXT_OPS for o in all_ops)
         if took:
             snap, rets, locked = serial_replay(flavour, thread_ops, obs)
             fin = obs['final']
@@ -735,6 +800,12 @@ def frame_oracle(flavour, c):
     if m != 'del_all_graphs' and others_a != others_b:
         return '%s(%s) changed another graph' % (m, g)
     bg, agn = b.get(g, set()), a.get(g, set())
+    if m in EXT_OPS:
+        if c['out'] != 'ok':
+            return '%s raised %s' % (m, c['out'])
+        if agn != bg - {c.get('rm', 0)}:
+            return '%s did not remove exactly the chosen node' % m
+        return None
     if m == 'add_blank_node_to_graph' and c['out'] == 'ok':
         r = c['ret']
         allb = set().union(*b.values()) if (flavour == 'shared' and b) else bg
@@ -772,11 +843,11 @@ def coq_case(flavour, thread_ops, obs):
         for c in row:
             op = c['op']
             g = it(op['g'] if isinstance(op.get('g'), str) else 'odd:' + json.dumps(op.get('g')))
-            k = op.get('k') or 0
+            k = c.get('rm', 0) if op['m'] in EXT_OPS else (op.get('k') or 0)
             p = c['path'] if c['path'] is not None else [True] * 64      # no path found: force a disagreement
             evs = clist(['(%s,%s)' % (cN(l), cN(cd)) for l, cd in c['events']])
             outc = 0 if c['out'] == 'ok' else 1
-            cs.append('("%s"%%string, %s, %s, %s, %s, %s)' % (op['m'], cN(g), cN(k), clist([cbool(b) for b in p]), evs, cN(outc)))
+            cs.append('("%s"%%string, %s, %s, %s, %s, %s)' % ('remove_node' if (op['m'] in EXT_OPS and not c.get('rm')) else op['m'], cN(g), cN(k), clist([cbool(b) for b in p]), evs, cN(outc)))
         ths.append(clist(cs))
     fin = obs['final']
     if flavour == 'shared':
@@ -832,12 +903,16 @@ def rand_op(rng, fail_rate=0.25):
         if rng.random() < fail_rate * 0.4:
             op['dupkw'] = True
         return op
-    if r < 0.80:
+    if r < 0.75:
         return {'m': 'del_graph', 'g': g}
-    if r < 0.88:
+    if r < 0.81:
         return {'m': 'extract_graph', 'g': g}
-    if r < 0.95:
+    if r < 0.86:
         return {'m': 'get_graph', 'g': g}
+    if r < 0.91:        # a caller removes a node from the stored graph, directly ...
+        return {'m': 'remove_node', 'g': g, 'idx': rng.randrange(4)}
+    if r < 0.96:        # ... or through NetworkXPropertyGraph.delete_node
+        return {'m': 'delete_node', 'g': g, 'idx': rng.randrange(4)}
     return {'m': 'del_all_graphs', 'g': g}
 
 
@@ -866,7 +941,9 @@ class Seq(Stream):
     rule = ('one thread, random histories of 3-12 store calls on a fresh store of either flavour over 3 graph ids: '
             'imports (0-3 nodes, Graph/DiGraph), failing imports (a node without NodeID, a garbage graph), duplicate '
             'ids, direct imports, blank nodes (incl. a raising keyword clash), deletes, delete-then-reimport, '
-            'extract/get; non-trivial = at least one failing call or a re-import of an id used before; distinct by '
+            'extract/get, and callers removing a node of a stored graph (directly and through '
+            'NetworkXPropertyGraph.delete_node) between allocations; non-trivial = at least one failing call, a '
+            're-import of an id used before or a node removal followed by an allocation; distinct by '
             'flavour + call list')
 
     def gen(self, rng, tier):
@@ -915,12 +992,26 @@ class Seq(Stream):
                 if o['g'] in seen:
                     re_import = True
                 seen.add(o['g'])
-        if failing or re_import:
+        rm_then_alloc = False
+        for i, o in enumerate(ops):
+            if o['m'] in EXT_OPS and obs['calls'][0][i].get('rm') and any(
+                    o2['m'] == 'add_blank_node_to_graph' and o2['g'] == o['g'] for o2 in ops[i + 1:]):
+                rm_then_alloc = True
+        if failing or re_import or rm_then_alloc:
             return stable_hash([case['flavour'], ops])
         return None
 
     def histogram(self, cases, obs):
         h = {'calls': 0, 'failing_calls': 0, 'reimport_cases': 0, 'early_return_dup': 0, 'paths_not_found': 0}
+        h['node_removals'] = sum(1 for o in obs for cl in o['calls'][0] if cl.get('rm'))
+        h['allocation_after_removal_of_a_non_last_node'] = 0
+        for c, o in zip(cases, obs):
+            for i, cl in enumerate(o['calls'][0]):
+                if cl.get('rm') and 'before' in cl:
+                    ids = per_graph(cl['before']).get(cl['op']['g'], set())
+                    if ids and cl['rm'] != max(ids) and any(c2['op']['m'] == 'add_blank_node_to_graph' and c2['op']['g'] == cl['op']['g']
+                                                            and c2['out'] == 'ok' for c2 in o['calls'][0][i + 1:]):
+                        h['allocation_after_removal_of_a_non_last_node'] += 1
         per = {}
         for c, o in zip(cases, obs):
             seen, re_imp = set(), False
@@ -981,6 +1072,10 @@ SCENARIOS = [
     ('delete-reimport-vs-blank', [{'m': 'add_graph', 'g': 'g1', 'k': 2, 'bad': None}],
      [[{'m': 'del_graph', 'g': 'g1'}, {'m': 'add_graph', 'g': 'g1', 'k': 1, 'bad': None}],
       [{'m': 'add_blank_node_to_graph', 'g': 'g1'}, {'m': 'add_graph_direct', 'g': 'g2', 'k': 1, 'bad': None}]]),
+    # callers remove nodes (delete_node / remove_node on the stored graph) between and during allocations
+    ('remove-vs-blank', [{'m': 'add_graph', 'g': 'g1', 'k': 3, 'bad': None}],
+     [[{'m': 'remove_node', 'g': 'g1', 'idx': 0}, {'m': 'add_blank_node_to_graph', 'g': 'g1'}],
+      [{'m': 'add_blank_node_to_graph', 'g': 'g1'}, {'m': 'delete_node', 'g': 'g1', 'idx': 1}]]),
     # T1 inside del_all_graphs while T2 is queued on acquire (and the other way round)
     ('delete-all-vs-queued', [{'m': 'add_graph', 'g': 'g1', 'k': 1, 'bad': None}],
      [[{'m': 'del_all_graphs', 'g': 'g1'}, {'m': 'add_blank_node_to_graph', 'g': 'g1'}],
@@ -1071,7 +1166,7 @@ class Sched(Stream):
                 [walk(x) for x in s[3]]
             elif k == 'try':
                 [walk(x) for x in s[2] + (s[3][1] if s[3] else []) + s[4]]
-            elif k == 'with':
+            elif k in ('with', 'acqt'):
                 rel.add(s[1])
                 [walk(x) for x in s[2]]
         for m in I[flavour]['methods'].values():
@@ -1273,9 +1368,9 @@ class C20(Check):
         out = []
         try:
             txt = HEADER + ('Eval vm_compute in (map (fun m => (fst m, lock_ok (snd m), find_bad lockA AllFaults 0 (snd m) 12 3, '
-                            'data_ok CGlobal (snd m))) shared_methods).\n'
+                            'data_ok CGlobal (snd m), find_bad (dataA CGlobal) DeclFaults 0 (snd m) 12 3)) shared_methods).\n'
                             'Eval vm_compute in (map (fun m => (fst m, lock_ok (snd m), find_bad lockA AllFaults 0 (snd m) 12 3, '
-                            'data_ok CArg (snd m))) disjoint_methods).\n'
+                            'data_ok CArg (snd m), find_bad (dataA CArg) DeclFaults 0 (snd m) 12 3)) disjoint_methods).\n'
                             'Eval vm_compute in (map (fun m => (fst m, fnever_lines (snd m))) shared_methods, '
                             'map (fun m => (fst m, fnever_lines (snd m))) disjoint_methods).\n')
             d = os.path.join(common.COQ, 'Cases')
@@ -1291,11 +1386,11 @@ class C20(Check):
                 except OSError:
                     pass
             o = ' '.join(p.stdout.split())
-            tup = re.findall(r'\("(\w+)"%string, (true|false), (Some \[[^\]]*\]|None), (true|false)\)', o)
+            tup = re.findall(r'\("(\w+)"%string, (true|false), (Some \[[^\]]*\]|None), (true|false), (Some \[[^\]]*\]|None)\)', o)
             nsh = len(ir()['shared']['order']) if ir() else 0
             names = [('shared.' if i < nsh else 'disjoint.') + t[0] for i, t in enumerate(tup)]
             bad = [(n, t[2]) for n, t in zip(names, tup) if t[1] == 'false']
-            badd = [n for n, t in zip(names, tup) if t[3] == 'false']
+            badd = [{'method': n, 'witness_path': t[4]} for n, t in zip(names, tup) if t[3] == 'false']
             nm = len(tup)
             out.append({'name': 'lock_ok holds for every regenerated method (witness path printed otherwise)',
                         'ok': p.returncode == 0 and not bad and nm >= 2,
